@@ -19,6 +19,7 @@ pub mod prop_c08_scan;
 pub mod prop_c10;
 pub mod prop_c11;
 pub mod prop_c12;
+pub mod prop_c13;
 pub mod prop_c14;
 pub mod prop_c15;
 pub mod prop_c20;
@@ -42,6 +43,7 @@ pub fn registry() -> Vec<PropertyDef> {
         prop_c10::def(),
         prop_c11::def(),
         prop_c12::def(),
+        prop_c13::def(),
         prop_c14::def(),
         prop_c15::def(),
         prop_c20::def(),
@@ -57,6 +59,8 @@ pub fn internal_mode(mode: &str, _args: &[String]) -> i32 {
     match mode {
         // decoder worker of engine E (C15): requests on stdin, answers on stdout
         "codec-worker" => prop_c15::worker_main(),
+        // crash engine (C13): re-executes a victim operation and is aborted at an armed probe
+        "crash-child" => prop_c13::crash_child_main(_args),
         // sensitivity self-test of the C14 oracles (mutant codecs, projection edits)
         "codec-selftest" => {
             framework::install_quiet_panic_hook();
